@@ -42,6 +42,7 @@ func groups(tier string) []group {
 		sc := sc
 		gs = append(gs, group{"typedef/" + sc.String(), func(tier string, yield func(*scen) bool) { enumScalarTD(tier, sc, true, yield) }})
 	}
+	gs = append(gs, group{"includes", enumIncludes})
 	gs = append(gs, group{"leaves/0", func(tier string, y func(*scen) bool) { enumLeaves(tier, 0, y) }})
 	gs = append(gs, group{"leaves/1", func(tier string, y func(*scen) bool) { enumLeaves(tier, 1, y) }})
 	for m := 0; m < 32; m += 4 {
@@ -970,6 +971,60 @@ func enumKeysLow(tier string, yield func(*scen) bool) {
 					doc: jt.Render(j, jt.Spell{}), want: tbin.Bytes(want), ks: []int{0}}
 				if !yield(sc) {
 					return
+				}
+			}
+		}
+	}
+}
+
+
+func hasStruct(s *tbin.Shape) bool {
+	if s.T == tbin.STRUCT {
+		return true
+	}
+	if s.Elem != nil && hasStruct(s.Elem) {
+		return true
+	}
+	return s.Key != nil && hasStruct(s.Key)
+}
+
+// enumIncludes: multi-file programs. The struct types below each root field live in an included file of their
+// own and the type names restart in every file (jt.Prog.Split), so the same unqualified name denotes different
+// types in different files; with and without typedef'd scalars. Roots: one hand-built root with four different
+// two-level subtrees, and every pair of consecutive struct-bearing shapes of the shape alphabet.
+func enumIncludes(tier string, yield func(*scen) bool) {
+	sc := tbin.Sc
+	a := tbin.StructS(tbin.SF(1, sc(tbin.I32)), tbin.SF(2, tbin.StructS(tbin.SF(1, sc(tbin.STRING)))))
+	b := tbin.StructS(tbin.SF(1, sc(tbin.STRING)), tbin.SF(2, tbin.StructS(tbin.SF(1, sc(tbin.I64)), tbin.SF(2, sc(tbin.BOOL)))))
+	c := tbin.ListS(tbin.StructS(tbin.SF(1, sc(tbin.DOUBLE)), tbin.SF(2, tbin.StructS(tbin.SF(3, sc(tbin.I16))))))
+	d := tbin.MapS(sc(tbin.STRING), tbin.StructS(tbin.SF(1, tbin.StructS(tbin.SF(1, sc(tbin.BYTE)))), tbin.SF(2, tbin.ListS(tbin.StructS(tbin.SF(7, sc(tbin.I32)))))))
+	roots := []*tbin.Shape{tbin.StructS(tbin.SF(1, a), tbin.SF(2, b), tbin.SF(3, c), tbin.SF(4, d)), tbin.StructS(tbin.SF(1, b), tbin.SF(2, a))}
+	var bearing []*tbin.Shape
+	for _, s := range shapeAlphabet(tier) {
+		if hasStruct(s) && !hasBinary(s) {
+			bearing = append(bearing, s)
+		}
+	}
+	for i := 0; i+1 < len(bearing); i++ {
+		roots = append(roots, tbin.StructS(tbin.SF(1, bearing[i]), tbin.SF(2, bearing[i+1])))
+	}
+	for ri, root := range roots {
+		for _, td := range []bool{false, true} {
+			prog := jt.NewProg(fmt.Sprintf("includes%d/typedef=%v", ri, td), root)
+			prog.Split, prog.Typedef = true, td
+			for n := 0; n <= 3; n++ {
+				g := &tbin.Gen{}
+				v := g.Build(root, n)
+				for _, sp := range []jt.Spell{{}, {WS: 2}} {
+					j, ok := prog.Doc(v, root, jt.DocOpt{})
+					if !ok {
+						continue
+					}
+					s := &scen{op: "shape", trigger: fmt.Sprintf("includes,typedef=%v", td), note: fmt.Sprintf("root %d n=%d %s", ri, n, sp), prog: prog, optName: "none",
+						doc: jt.Render(j, sp), want: tbin.Bytes(v), ks: ksFor(tier, sp != jt.Spell{})}
+					if !yield(s) {
+						return
+					}
 				}
 			}
 		}
